@@ -22,11 +22,13 @@ def run(pid, tier, seed):
       if ev["k"] == "count":
         g = ev["g"]
         ident = {"clause": cl, "class": g["cls"], "depth_multiplier_gt_1": g["dm"] > 1}
+        if ev.get("via") == "estimate":
+          ident["via"] = "estimate.extract_model_operations"
         chk.violation(ident, {"geometry": g, "reported": ev["reported"]})
       else:
         chk.violation({"clause": cl, "model": ev["model"]}, {k: ev[k] for k in ("setting", "layers", "total", "sel", "extracted")})
   for ev in events:
-    chk.key(json.dumps(ev["g"], sort_keys=True) if ev["k"] == "count" else json.dumps([ev["model"], ev["setting"], ev["sel"]]))
+    chk.key(json.dumps([ev["g"], ev.get("via")], sort_keys=True) if ev["k"] == "count" else json.dumps([ev["model"], ev["setting"], ev["sel"]]))
   chk.sample(next(e for e in events if e["k"] == "count"))
   en = [e for e in events if e["k"] == "energy"]
   if en:
